@@ -35,6 +35,8 @@ def month_of(v):
         return v if 1 <= v <= 12 else None
     if isinstance(v, str):
         if v.isdecimal() and v.isascii():
+            if len(v) > 4000:
+                return None     # beyond what int() converts (CPython's 4300-digit limit): not a month spelling anyone writes
             return int(v) if 1 <= int(v) <= 12 else None
         l = v.lower()
         if l in ABBR:
@@ -63,7 +65,7 @@ def values(tier):
     for f in FULL:
         vs.extend(case_variants(f, lim))
     vs += ["{jan}", '"jan"', '"1"', "{1}", "janu", "sept", "Sept.", "foo", "", "ja", "maya", "Mayy", "december ", None, 2.0,
-           "²", "①", "1²"]
+           "²", "①", "1²", "9" * 5000, "0" * 4999 + "1"]
     out, seen = [], set()
     for v in vs:
         k = (type(v).__name__, v)
@@ -127,7 +129,7 @@ def run(P: Program, rep: Report):
                 want = expected(kind, v)
                 vk = ("month" if month_of(v) else "non-month") + ":" + type(v).__name__
                 if res[0] == "raise":
-                    bad.setdefault(f"{kind}:raises-{res[1].cls_name()}:{vk}", f"{MW[kind]} raises {res[1].cls_name()} for month value {v!r}")
+                    bad.setdefault(f"{kind}:raises-{res[1].cls_name()}:{vk}", f"{MW[kind]} raises {res[1].cls_name()} for month value {(v if not isinstance(v, str) or len(v) < 40 else v[:12] + '...(%d characters)' % len(v))!r}")
                 elif res[0] != "value":
                     bad.setdefault(f"{kind}:block:{vk}", f"{MW[kind]} returns {res[1]!r} for month value {v!r}")
                 elif not (res[1] == want and type(res[1]) is type(want)) or res[2] != "t" or res[3] != 2:
@@ -204,3 +206,48 @@ def run(P: Program, rep: Report):
         rep.fail("C15.R5", f"composition:{k}", mod.relpath, msg)
     if not badc:
         rep.ok("C15.R5", f"composition:{nc}-rows", mod.relpath)
+
+    rep.rule("C15.R6", "no state between entries: one middleware instance applied to a run of entries whose month values coincide under "
+                       "str() / lower() / strip() / int() (13 and '13', 1 and '1' and '01', 'jan' and 'JAN', 'foo' and 'FOO', None and 'None') "
+                       "gives every entry the contract's value for its own month value, in either order")
+    runs = [[13, "13", 1, "1", "01", "jan", "JAN", "Jan", "foo", "FOO", "Foo", 0, "0", None, "None", " 1", "1 ", "may", "May", "MAY", 5, "5", "05"]]
+    runs.append(list(reversed(runs[0])))
+    bad6 = {}
+    n6 = 0
+    for kind in MW:
+        for ri, seqv in enumerate(runs):
+            def one6(ctx):
+                it = driver_interp(P, ctx, "middlewares.month")
+                mw = it.construct(classes[kind], [], {})
+                got = []
+                try:
+                    for v in seqv:
+                        f = new_obj(it, P, "model", "Field", key="month", value=v, start_line=1)
+                        e = new_obj(it, P, "model", "Entry", entry_type="a", key="k", fields=AList([f]), start_line=0, raw="r")
+                        out = call(it, mw, "transform_entry", e, Unknown("library"))
+                        got.append(it.get_attr(it.iterate(it.get_attr(e, "fields"))[0], "value") if out is e else ("block", out))
+                    return ("values", got)
+                except Raised as r:
+                    return ("raise", r)
+                except (Unsupported, LoopBound) as u:
+                    raise AnalysisError(f"C15.R6: analyser cannot follow {MW[kind]}: {u}")
+            for ctx, res in explore(one6, 20):
+                n6 += 1
+                if res[0] == "raise":
+                    bad6.setdefault(f"{kind}:raises", f"{MW[kind]} raises {res[1].cls_name()} on a run of entries")
+                    continue
+                for v, g in zip(seqv, res[1]):
+                    want = expected(kind, v)
+                    if not (g == want and type(g) is type(want)):
+                        bad6.setdefault(f"{kind}:carry-over", f"one {MW[kind]} instance applied to entries with months {seqv[:6]}...: the entry with {v!r} gets {g!r}, "
+                                                              f"the contract gives {want!r} (a result is carried over from another entry)")
+                        break
+    for k, msg in sorted(bad6.items()):
+        rep.fail("C15.R6", f"instance-reuse:{k}", classes[k.split(':')[0]].loc, msg)
+    if not bad6:
+        rep.ok("C15.R6", f"instance-reuse:{n6}-runs", mod.relpath)
+
+    rep.rule("C15.R9", "no unsafe memoisation in the modules this property rests on: a function decorated with lru_cache / cache / "
+                      "cached_property neither takes nor returns a mutable object (else later calls see stale or shared results)")
+    from . import common as _common
+    _common.no_unsafe_memoisation(P, rep, "C15.R9", ['middlewares.month'])
